@@ -119,6 +119,19 @@ theorem C12_frame_roundtrip (k : Kind) (hk : k ∈ wireKinds) (m : Msg) (hf : m.
          ∀ x ∈ expectedFields k m, x ∈ p.fields :=
   parse_encode k (C12_layouts_ok k hk) m hf
 
+/-- masks: the priority byte is read whole or with `& 3` (which keeps every defined priority 0, 1, 2
+    — so `expected` is the priority itself), the important flag is bit 7 on both sides -/
+theorem C12_masks : ∀ k ∈ wireKinds,
+    (∀ r ∈ k.reads, r.name = "options.Priority" → r.mask = 0 ∨ r.mask = 3) ∧
+    (∀ r ∈ k.reads, r.mask ≠ 0 → r.name = "options.Priority" ∨ (r.name = "important" ∧ r.mask = 128)) ∧
+    (∀ w ∈ k.writes, w.mask ≠ 0 → w.mask = 128 ∧ w.cond = "important") := by decide
+
+theorem C12_priority_exact (p : Nat) (hp : p ≤ 2) : p &&& 3 = p := by
+  match p, hp with
+  | 0, _ => rfl
+  | 1, _ => rfl
+  | 2, _ => rfl
+
 /-- the payload handed to the decoder is always a suffix of the frame (nothing foreign is decoded) -/
 theorem C12_payload_is_suffix (k : Kind) (f : List UInt8) (p : Parsed) (h : parse k f = .ok p) :
     ∃ pre, f = pre ++ p.payload :=
